@@ -134,21 +134,27 @@ def remaining (s : Spl) (comb : List Name) : List Name :=
 def project {α} (keep : List Name) (row : List (Name × α)) : List (Name × α) :=
   row.filter (fun e => keep.contains e.1)
 
-/-- stable group-by: groups in first-occurrence order, members in enumeration order -/
-def groupBy {κ} [BEq κ] : List (κ × List Nat) → List (Nat × κ) → List (κ × List Nat)
-  | acc, [] => acc
-  | acc, (i, k) :: rest =>
-    if acc.any (fun g => g.1 == k) then groupBy (acc.map (fun g => if g.1 == k then (g.1, g.2 ++ [i]) else g)) rest
-    else groupBy (acc ++ [(k, [i])]) rest
+/-- the distinct elements in order of first occurrence -/
+def nub {κ} [BEq κ] : List κ → List κ
+  | [] => []
+  | x :: xs => x :: (nub xs).filter (fun y => !(y == x))
 
-def enum {α} : Nat → List α → List (Nat × α)
+/-- the positions (counted from `ii`) at which `k` occurs, ascending -/
+def positions {κ} [BEq κ] (k : κ) : Nat → List κ → List Nat
   | _, [] => []
-  | i, x :: xs => (i, x) :: enum (i + 1) xs
+  | ii, x :: xs => (if x == k then [ii] else []) ++ positions k (ii + 1) xs
+
+/-- stable group-by: one group per distinct key, groups in first-occurrence order, members in enumeration order -/
+def groupBy {κ} [BEq κ] (keys : List κ) : List (List Nat) :=
+  (nub keys).map (fun k => positions k 0 keys)
+
+/-- group the jobs on their projection to the fields `keep` (all jobs in one flat list when nothing is kept) -/
+def combineSpecKeep (keep : List Name) (jobs : List (List (Name × Nat))) : Out :=
+  if keep.isEmpty then .flat (List.range jobs.length)
+  else .grouped (groupBy (jobs.map (project keep)))
 
 /-- What combining `comb` must return for the jobs `jobs` (rows of `expandInd`), as job numbers. -/
 def combineSpec (s : Spl) (comb : List Name) (jobs : List (List (Name × Nat))) : Out :=
-  let keep := remaining s comb
-  if keep.isEmpty then .flat (List.range jobs.length)
-  else .grouped ((groupBy [] (enum 0 (jobs.map (project keep)))).map (·.2))
+  combineSpecKeep (remaining s comb) jobs
 
 end PydraModel.StateAlg.Spec
